@@ -1613,3 +1613,72 @@ Proof.
   - unfold active_file. rewrite Ho. cbn [fst snd]. ginv_fields. rewrite app_nil_r. auto 10.
   - ginv_fields. rewrite app_nil_r. auto 10.
 Qed.
+
+(* ---------- the directory is created on demand — also again, after it was removed from outside ---------- *)
+(* whatever the state: after  rm -rf Path  the next Reopen re-creates the directory with 0700 and opens a new, empty file
+   with the configured name and mode *)
+Theorem reopen_recreates_dir c w t t' : special c = false ->
+  let w' := step c (xstep c w (XRmDir t)) (Reopen t') in
+  dirmode w' = Some dirMode /\ files w' = [new_file c w t'] /\ fopen w' = Some (next_ino w, newFileName c t') /\
+  lc w' = t' /\ bw w' = 0 /\ step_ok c (xstep c w (XRmDir t)) (Reopen t') = true.
+Proof.
+  intros Hsp. cbn zeta. unfold step, step_ok, xstep. cbn [xstep3 step3 fst snd]. rewrite Hsp. cbn [fst snd].
+  rewrite do_reopen_eq. unfold do_open. ginv_fields. cbn [set_dir fopen files dirmode lookup_name app next_ino]. auto 10.
+Qed.
+(* … and so does a write that rotates in the all-stamped naming mode: the event lands, alone, in a new file of a new directory *)
+Theorem rotating_write_recreates_dir c w t id size t1 t2 t3 t4 t5 o : special c = false -> tsOnly c = false ->
+  fopen w = Some o -> rotate_due c w t2 = true ->
+  let w1 := xstep c w (XRmDir t) in
+  let w' := step c w1 (Write id size t1 t2 t3 t4 t5 nofault) in
+  dirmode w' = Some dirMode /\ files w' = [add_data (new_file c w t4) id] /\
+  fopen w' = Some (next_ino w, newFileName c t4) /\ step_ok c w1 (Write id size t1 t2 t3 t4 t5 nofault) = true.
+Proof.
+  intros Hsp Hts Ho Hdue. cbn zeta. unfold step, step_ok, xstep. cbn [xstep3 step3 fst snd]. rewrite Hsp.
+  unfold do_write. rewrite (do_open_open c _ t1 o) by exact Ho.
+  unfold do_rotate.
+  assert (Hd : rotate_due c (set_clock (set_dir w [] None) t) t2 = true) by exact Hdue.
+  rewrite Hd, Hts.
+  assert (Hp : forall w0, files w0 = [] -> prune c w0 = w0).
+  { intros w0 E. unfold prune, prune_n, stale_count, glob_sorted. rewrite E. cbn [stamps_of isort length Nat.sub].
+    destruct (special c || N.eqb (maxFiles c) 0); reflexivity. }
+  rewrite Hp by reflexivity.
+  unfold do_open, append_chunk. ginv_fields. cbn [set_dir fopen files dirmode lookup_name app next_ino negb nofault first_fails fst snd].
+  unfold fs_append. cbn [map f_ino new_file]. rewrite N.eqb_refl. auto 10.
+Qed.
+
+(* ---------- acknowledged implies present, whatever write(2) does (beyond C08's fault-free quantifier) ---------- *)
+(* For EVERY outcome of the fault oracle: a Process call that returns nil has put the whole event at the end of what the files
+   read (after at most the bytes of a failed first attempt, chunk 0), and a call that returns an error acknowledges nothing. *)
+Theorem write_ack_present c w id size t1 t2 t3 t4 t5 flt :
+  sinv c w -> clock w < t1 -> t1 < t2 -> t2 < t3 -> t3 < t4 -> t4 < t5 ->
+  let r := do_write c w id size t1 t2 t3 t4 t5 flt in
+  if snd (fst r)
+  then D (fst (fst r)) = D w ++ (if first_fails flt && leaves_partial flt then [0%N] else []) ++ [id] /\ acked (fst (fst r)) = acked w ++ [id]
+  else acked (fst (fst r)) = acked w.
+Proof.
+  intros Hi H1 H2 H3 H4 H5. unfold do_write.
+  assert (Hi1 : sinv c (do_open c w t1)) by (apply sinv_open; assumption).
+  assert (Hc1 : clock (do_open c w t1) < t2) by (rewrite do_open_clock; destruct (fopen w); lia).
+  pose proof (rotate_spec c _ t2 t3 t4 Hi1 Hc1 H3 H4) as [G1 [G2 [G3 G4]]].
+  destruct (do_open_fopen c w t1) as [o1 Ho1].
+  pose proof (rotate_ok_open c _ t2 t3 t4 o1 Ho1) as Hok.
+  rewrite D_open in G2 by exact Hi. rewrite do_open_acked in G3.
+  destruct (do_rotate c (do_open c w t1) t2 t3 t4) as [[w2 ok] rot]. cbn [fst snd] in *.
+  destruct ok; cbn [negb fst snd]; [|exact G3].
+  specialize (Hok eq_refl).
+  destruct (first_fails flt); cbn [negb andb fst snd].
+  - assert (H3' : sinv c (if leaves_partial flt then append_chunk w2 0%N 0 false else w2) /\
+                  clock (if leaves_partial flt then append_chunk w2 0%N 0 false else w2) = clock w2 /\
+                  acked (if leaves_partial flt then append_chunk w2 0%N 0 false else w2) = acked w /\
+                  D (if leaves_partial flt then append_chunk w2 0%N 0 false else w2) = D w ++ (if leaves_partial flt then [0%N] else [])).
+    { destruct (leaves_partial flt).
+      - destruct (append_spec c w2 0%N 0 false G1) as [A1 [A2 [A3 [A4 _]]]]. conj; auto; [congruence|rewrite (A2 Hok); congruence].
+      - rewrite app_nil_r. auto. }
+    destruct H3' as [S3 [C3 [K3 D3]]].
+    destruct (reopen_spec c _ t5 S3) as [R1 [R2 [R3 [_ R5]]]]; [lia|].
+    destruct (second_fails flt); cbn [fst snd]; [congruence|].
+    destruct (append_spec c _ id size false R1) as [_ [A2 [A3 _]]]. unfold D in *. projs.
+    rewrite (A2 R5), A3, R2, R3, D3, K3, <- app_assoc. split; reflexivity.
+  - destruct (append_spec c w2 id size true G1) as [_ [A2 [A3 _]]]. unfold D in *. projs.
+    rewrite (A2 Hok), A3, G2, G3. split; reflexivity.
+Qed.
